@@ -34,6 +34,17 @@ ReplaceD(s, pat, rep) ==       \* pat # <<>>
   IN IF p = 0 THEN s ELSE SubSeq(s, 1, p - 1) \o rep \o ReplaceD(Tail0(s, p + Len(pat)), pat, rep)
 
 JoinD(elems, infix) == Glue(SelectSeq(elems, LAMBDA e : e # <<>>), infix)
+(* join is a template over the element type: an element is whatever can be streamed, and each element is written to  *)
+(* a stream of its own - nothing an element does to its stream is seen by the next one, and an element whose own      *)
+(* operator<< is written with join is as good as any other (formatting is re-entrant).  Element kinds of the drivers:  *)
+(* "s" text, "i" integer, "h" a type that prints hexadecimal and leaves its stream in that mode, "j" a list type that  *)
+(* prints itself as "[" join(inner, ",") "]".                                                                          *)
+ElemText(e) == CASE e.t = "s" -> e.v
+                 [] e.t = "i" -> IntText(e.v)
+                 [] e.t = "h" -> HexText(e.v)
+                 [] e.t = "j" -> <<91>> \o JoinD(e.v, <<44>>) \o <<93>>
+ElemTexts(items) == [k \in 1..Len(items) |-> ElemText(items[k])]
+JoinItemsD(items, infix) == JoinD(ElemTexts(items), infix)
 
 --------------------------------------------------------------------------------------------------
 (* machine *)
